@@ -29,6 +29,36 @@ CLAIMED = {
         "Relational oracle: the library's own new-moon days and term days (judged astronomically in C05); the rule is the classical no-major-term rule. Years before 27 and the sui starting 237-239 are outside the property.",
         "exhaustive enumeration of all sui with a rule-derived labelling compared to the implementation's labels",
         "DESIGN.md 2/C04"),
+    "C06": (
+        "Explicit-state exploration against the library's own term table (240,024 terms, years 0..10000): (a) every adjacent pair strictly increasing 14.6-15.8 d apart; (b) from_index(y,i) for i in -30..54, from_name, Jie/Qi parity and next(n), n in -50..50, for every year x 24 terms equal the table entry n places away; (c) every civil date (thorough: all; quick: windows): get_term_day / get_term = latest term whose day <= date with index = days elapsed; (d) every term's second-rounded instant -1 s/+0/+1 s and two instants of every window date for SolarTime::get_term.",
+        "A term's start is the instant/day the library reports for it (judged astronomically in C05). Days of January 0001 before the first term day are outside the claim (governing term in 1 BC).",
+        "explicit-state enumeration of all terms / dates / boundary instants against the global term sequence",
+        "DESIGN.md 2/C06"),
+    "C07": (
+        "Every civil date (thorough: all 3,652,061; quick: windows) x five routes: LunarDay pillar, SixtyCycleDay pillar, SolarDay/JulianDay/LunarDay weekday, compared with the closed forms (JDN+49) mod 60 and (JDN+1) mod 7 of the odometer's day number; since every date is compared with a function of the day number, every adjacent pair (month/year ends, 1582 cut-over, all lunar month boundaries) is covered.",
+        "Trusted: odometer JDN. Known finding: the 160 reform-era dates whose lunar label is wrong (C02) inherit a wrong pillar/weekday through the lunar routes.",
+        "explicit-state enumeration of all dates x routes against closed forms of the day number",
+        "DESIGN.md 2/C07"),
+    "C08": (
+        "Day view: every civil date from the Lichun day of year 1 to 9998-12-31 (thorough all, quick windows): year pillar (Y-4) mod 60 with Y switching on the Lichun day, month branch counted from the Jie days of the library's term table, month stem by Five Tigers typed from the rhyme, index in year; on every Jie day the month object's first day / next / previous. Time view: all 119,976 Jie instants -1 s/+0/+1 s plus four hours of every window date. All sexagenary years -1..9999: year pillar, first month, 12 months by list and by index.",
+        "Jie days/instants are the library's own (C05/C06 judge them).",
+        "explicit-state enumeration of all dates / all Jie boundary instants against term-table + pillar algebra model",
+        "DESIGN.md 2/C08"),
+    "C09": (
+        "(a) 3 eras x 60 consecutive days x 24 hours x 2 clock times: hour branch/stem (Five Rats from the day the hour belongs to), index in day, 23:00 day roll, default and LunarSect2 providers; (b) every hour of every date of the windows: eight characters = year, month, day(+1 at 23h), hour pillars from the model; (c) inverse search on every double-hour of every day of fully enumerated years (quick 1 year x 2 ranges; thorough 5 eras x 2 years x 9 ranges [y-60k, y+60k']): every returned instant recomputes to the same characters, and a double-hour containing no Jie instant contains at least one returned instant.",
+        "Double-hours containing a Jie instant are skipped as the property states. Known finding: instants of the 160 reform-era dates (C02) inherit the wrong lunar day.",
+        "explicit-state enumeration of hour lattices and exhaustive inverse-search conformance on enumerated day windows",
+        "DESIGN.md 2/C09"),
+    "C11": (
+        "42 cyclic types: every element x 15 step counts (0, +-1, +-2, +-(size-1), +-size, +-(size+1), +-(2size+1), +-1000003) x all ordered pairs (pair law next(a).next(b) = next(a+b)), from_index over -2size..3size, from_name of every published name (least index for repeated names), and every name of every other cycle plus near misses must be refused. Linear units (solar year/half/season/month, lunar year, sexagenary year/month incl. year -1, Julian day, solar/lunar/sexagenary day, solar time, sexagenary hour, lunar hour in 2 h steps): ordinal models, all values for the cheap units (quick: thinned), boundary lattices for day/instant units, all step pairs from per-unit alphabets with results kept in range.",
+        "Lunar months, terms, weeks and festivals are stepped exhaustively in C03, C06, C14, C20; name contents are judged by C19. Fixed: SixtyCycleMonth year carry.",
+        "exhaustive enumeration of cycle elements x step-count pairs against Z/size; ordinal-model conformance for linear units",
+        "DESIGN.md 2/C11"),
+    "C12": (
+        "Instant lattice {00:00:00, 00:00:01, 11:59:59, 12:00:00, 23:59:58, 23:59:59} of every civil day (thorough) or of month-boundary days of the windows, of every 25th year and Sept/Oct 1582 (quick) x next(n) for 31 step sizes up to +-10^9 s, subtract, before/after; instant -> Julian date -> instant for those and for every second of 6 chosen days; fractional Julian dates +-1 s in 0.1 s steps around hh:59:59 carry points (all 24 on boundary days, 3 on other days) must give a valid instant within 0.5 s.",
+        "Oracle: instant ordinal = 86400 * odometer day + second of day. 'Random instants' of the property are replaced by these fully enumerated lattices.",
+        "explicit-state enumeration of an instant lattice x step alphabet against an instant-ordinal model",
+        "DESIGN.md 2/C12"),
     "C10": (
         "Three explorers. (1) Explicit-state BFS over the real process-wide memo: state = canonical memo snapshot + poison flags (read through the verif hooks), transition = one request of an alphabet built to collide under every plausible keying plus refused requests; run to a fixpoint on the core alphabet (quick 256 states / thorough 4096) and to depth 2/3 on the full alphabet incl. walkers and the provider locks; every answer must equal the cold answer and the cache-free constructor. (2) Value-level lazy fields: every sequence of <= 3 observers on LunarDay/LunarHour values vs a fresh value. (3) loom (DPOR) over the repository's own source files compiled against loom's Mutex/lazy_static: 2-4 threads x 1-3 requests on colliding keys, nested provider->memo locks and Err-refusals, preemption bounds 0,1,2,(3), unbounded for the small harnesses; every complete schedule's answers must equal the cold answers; loom reports deadlocks.",
         "The '16 OS threads' clause is replaced by exhaustive loom schedules of small harnesses (a free-running stress run would be sampling). loom cannot unwind through a held loom MutexGuard, so panicking refusals are decided by the sequential explorer on std's Mutex (which has poisoning); data races on the !Sync lazy fields are excluded by the compiler (no unsafe).",
